@@ -37,7 +37,14 @@ impl<D: StorageData> StorageData for Failing<D> {
     fn write(&mut self, pos: u64, bytes: &[u8]) -> Result<(), DbError> { maybe_fail()?; self.0.write(pos, bytes) }
 }
 
-pub struct Out { pub oracle: Vec<String>, pub stats: BTreeMap<String, u64>, pub samples: Vec<String>, pub nontrivial: u64, pub runs: u64 }
+pub struct Out { pub live: Option<std::fs::File>, pub oracle: Vec<String>, pub stats: BTreeMap<String, u64>, pub samples: Vec<String>, pub nontrivial: u64, pub runs: u64 }
+impl Out {
+    pub fn fail(&mut self, l: String) {
+        use std::io::Write;
+        if let Some(f) = self.live.as_mut() { let _ = writeln!(f, "{}", l); let _ = f.flush(); }
+        self.oracle.push(l);
+    }
+}
 fn bump(o: &mut Out, k: &str) { *o.stats.entry(k.to_string()).or_insert(0) += 1; }
 
 fn wal_of(path: &str) -> String { match path.rfind('/') { Some(i) => format!("{}/.{}", &path[..i], &path[i + 1..]), None => format!(".{}", path) } }
@@ -48,6 +55,10 @@ fn run_once(path: &str, steps: &[Step], target: usize, k: Option<u64>, mapped: b
     let _ = std::fs::remove_file(path);
     let _ = std::fs::remove_file(wal_of(path));
     FAIL_AT.store(-1, Ordering::SeqCst);
+    {
+        use std::io::Write;
+        if let Some(f) = out.live.as_mut() { let _ = writeln!(f, "#RUN k={:?} {}", k, desc); let _ = f.flush(); }
+    }
     let mut calls_in_target = 0;
     let r = std::panic::catch_unwind(std::panic::AssertUnwindSafe(|| -> Result<String, DbError> {
         macro_rules! go { ($db:expr) => {{
@@ -64,14 +75,14 @@ fn run_once(path: &str, steps: &[Step], target: usize, k: Option<u64>, mapped: b
                     if injected {
                         bump(out, "injected");
                         let failed = res.starts_with("err") || res.contains(" ; err") || res.starts_with("txn err");
-                        if res == "panic" { out.oracle.push(format!("fail-panic k={:?} panic=[{}] {}", k, crate::LAST_PANIC.lock().unwrap(), desc)); return Ok(String::new()); }
-                        if !failed { out.oracle.push(format!("fail-not-reported k={:?} result={} {}", k, &res[..res.len().min(200)], desc)); }
+                        if res == "panic" { out.fail(format!("fail-panic k={:?} panic=[{}] {}", k, crate::LAST_PANIC.lock().unwrap(), desc)); return Ok(String::new()); }
+                        if !failed { out.fail(format!("fail-not-reported k={:?} result={} {}", k, &res[..res.len().min(200)], desc)); }
                         let after = show_obs(&observe(&*db), true);
-                        if after != before { out.oracle.push(format!("fail-effect-visible k={:?} before={} after={} {}", k, before, after, desc)); }
+                        if after != before { out.fail(format!("fail-effect-visible k={:?} before={} after={} {}", k, before, after, desc)); }
                     }
                 } else {
                     let res = exec_step(db, s);
-                    if res == "panic" { out.oracle.push(format!("fail-later-panic step={} k={:?} panic=[{}] {}", i, k, crate::LAST_PANIC.lock().unwrap(), desc)); return Ok(String::new()); }
+                    if res == "panic" { out.fail(format!("fail-later-panic step={} k={:?} panic=[{}] {}", i, k, crate::LAST_PANIC.lock().unwrap(), desc)); return Ok(String::new()); }
                 }
             }
             Ok(show_obs(&observe(&*db), false))
@@ -89,15 +100,15 @@ fn run_once(path: &str, steps: &[Step], target: usize, k: Option<u64>, mapped: b
                 Ok(show_obs(&o, false))
             });
             match re {
-                Ok(Ok(d)) if d.starts_with("READ-ERRORS") => out.oracle.push(format!("fail-reopen-unreadable k={:?} {} {}", k, d, desc)),
-                Ok(Ok(d)) => if d != last { out.oracle.push(format!("fail-later-work-lost k={:?} in_process={} reopened={} {}", k, last, d, desc)); },
-                Ok(Err(e)) => out.oracle.push(format!("fail-reopen-error k={:?} error={} {}", k, e.description, desc)),
-                Err(_) => out.oracle.push(format!("fail-reopen-panic k={:?} {}", k, desc)),
+                Ok(Ok(d)) if d.starts_with("READ-ERRORS") => out.fail(format!("fail-reopen-unreadable k={:?} {} {}", k, d, desc)),
+                Ok(Ok(d)) => if d != last { out.fail(format!("fail-later-work-lost k={:?} in_process={} reopened={} {}", k, last, d, desc)); },
+                Ok(Err(e)) => out.fail(format!("fail-reopen-error k={:?} error={} {}", k, e.description, desc)),
+                Err(_) => out.fail(format!("fail-reopen-panic k={:?} {}", k, desc)),
             }
         }
         Ok(Ok(_)) => {}
-        Ok(Err(e)) => out.oracle.push(format!("fail-create-error {} {}", e.description, desc)),
-        Err(_) => out.oracle.push(format!("fail-panic-outer k={:?} panic=[{}] {}", k, crate::LAST_PANIC.lock().unwrap(), desc)),
+        Ok(Err(e)) => out.fail(format!("fail-create-error {} {}", e.description, desc)),
+        Err(_) => out.fail(format!("fail-panic-outer k={:?} panic=[{}] {}", k, crate::LAST_PANIC.lock().unwrap(), desc)),
     }
     let _ = std::fs::remove_file(path);
     let _ = std::fs::remove_file(wal_of(path));
